@@ -303,7 +303,22 @@ type c16lRun struct {
 }
 
 func (x *c16lRun) fail(f string, a ...any) {
-	panic(fmt.Sprintf("harness: job %s: %s [%s]", x.job, fmt.Sprintf(f, a...), x.c.describe()))
+	var ci []string
+	for i, n := range x.c.nodes {
+		if s := n.store(); s != nil {
+			ci = append(ci, fmt.Sprintf("n%d: received-command-index %d, last contact %v ago", i, s.raftTn.CommandCommitIndex(), x.since(i).Round(time.Millisecond)))
+			if os.Getenv("VERIF_C16_DEBUG") != "" {
+				li := s.raft.LastIndex()
+				for k := li - 14; k <= li; k++ {
+					var le raft.Log
+					if err := s.raftLog.GetLog(k, &le); err == nil {
+						ci = append(ci, fmt.Sprintf("%d:%s/t%d", k, le.Type, le.Term))
+					}
+				}
+			}
+		}
+	}
+	panic(fmt.Sprintf("harness: job %s: %s [%s; %s]", x.job, fmt.Sprintf(f, a...), x.c.describe(), strings.Join(ci, "; ")))
 }
 
 func (x *c16lRun) poll(what string, ok func() bool) {
@@ -398,7 +413,10 @@ func (x *c16lRun) one(cs c16lCase, level proto.ConsistencyLevel) {
 			ok = !served && outcome != "served-wrong-result"
 		}
 		fr := map[int64]string{0: "0", c16lSmall: "small", c16lLarge: "large"}[cs.Freshness]
-		x.r.Distinct(fmt.Sprintf("%s|%s|%s|%s|f=%s|strict=%v|want=%s(%s)|got=%s", cs.Condition, cs.Role, cs.Level, cs.API, fr, cs.Strict, want, why, outcome))
+		// "caught up" and "applied index ahead of the received-command index" are one situation
+		// for the evidence: which of the two a node is in after a leader change is not controlled
+		dwhy := strings.NewReplacer("strict:caught-up", "strict:not-behind", "strict:fsm-index-ahead-of-known-commit-index", "strict:not-behind").Replace(why)
+		x.r.Distinct(fmt.Sprintf("%s|%s|%s|%s|f=%s|strict=%v|want=%s(%s)|got=%s", cs.Condition, cs.Role, cs.Level, cs.API, fr, cs.Strict, want, dwhy, outcome))
 		if k := x.n.Load(); k%389 == 1 {
 			x.r.Sample(map[string]any{"case": cs, "node_before": pre.String(), "documented": want + " (" + why + ")", "answer": outcome})
 		}
@@ -422,14 +440,16 @@ func (x *c16lRun) afterLogRead(l int) {
 	if ls == nil || ls.raft.State() != raft.Leader {
 		return
 	}
-	li := ls.fsmIdx.Load()
+	li, last := ls.fsmIdx.Load(), ls.raft.LastIndex()
+	// (the node's count of received commands is not used here: a late AppendEntries of a
+	// deposed leader's term sets it back, see the note in the test function)
 	x.poll("the strong read's log entry reached every node in contact", func() bool {
 		for j := range x.c.nodes {
 			s := x.c.nodes[j].store()
 			if j == l || s == nil || !x.c.net.Connected(l, j) {
 				continue
 			}
-			if s.raftTn.CommandCommitIndex() < li || (!x.held[j] && s.fsmIdx.Load() < li) {
+			if s.raft.LastIndex() < last || (!x.held[j] && s.fsmIdx.Load() < li) {
 				return false
 			}
 		}
@@ -652,6 +672,17 @@ func (x *c16lRun) jobB() {
 	}
 	x.product("leader-deposed", names, []int{0, 1, 2}, nil, nil)
 
+	if os.Getenv("VERIF_C16_DEBUG") != "" {
+		for i := range c.nodes {
+			i := i
+			c.nodes[i].store().raftTn.SetAppendEntriesRxHandler(func(req *raft.AppendEntriesRequest) error {
+				if len(req.Entries) > 0 {
+					fmt.Printf("DEBUG %s n%d rx AE term %d prev %d entries %d..%d commit %d\n", time.Now().Format("15:04:05.000"), i, req.Term, req.PrevLogEntry, req.Entries[0].Index, req.Entries[len(req.Entries)-1].Index, req.LeaderCommitIndex)
+				}
+				return nil
+			})
+		}
+	}
 	c.net.Heal()
 	if _, err := vxSettle(c, c16lVoter, c16lWait); err != nil {
 		x.fail("after healing: %v", err)
@@ -691,10 +722,13 @@ func c16lJob(t *testing.T, r *kit.Run, job string, rotate bool, filter *c16lCase
 		}
 	}
 	x.write(c16lKey, c16lVal)
-	if strings.HasPrefix(job, "A") {
+	switch job[0] {
+	case 'A':
 		x.jobA()
-	} else {
+	case 'B':
 		x.jobB()
+	default:
+		x.jobW()
 	}
 	if n := x.undec.Load(); n > 0 {
 		r.Cap("job %s: %d reads could not be decided (node state kept moving under the read)", job, n)
@@ -710,28 +744,32 @@ func TestVerif_C16_live(t *testing.T) {
 			os.Stderr = f
 		}
 	}
-	r.Rule("on live clusters of real Stores (leader + voting follower + non-voter): full product of level {NONE, WEAK, STRONG, LINEARIZABLE, AUTO} x node {leader, follower, non-voter} x API {Store.Query, Store.Request with a read-only statement} x freshness {0, 500ms, 1h} x freshness_strict {off, on}, under each node condition {healthy; non-voter cut off longer than the small bound; follower and non-voter restarted and caught up; follower and non-voter holding a received but unapplied command, last applied promptly; the same with the last applied command held back longer than the small bound; leader isolated inside its lease; the same after the lease ran out; healed}. Every answer is compared with the documented table evaluated on the node's own raft state and timestamps read before and after the read. thorough: the same with the other voter leading, each job twice. evaluations = reads judged; distinct = (condition, role, level, API, freshness, strict, documented answer and reason, answer)")
+	r.Rule("on live clusters of real Stores (leader + voting follower + non-voter): full product of level {NONE, WEAK, STRONG, LINEARIZABLE, AUTO} x node {leader, follower, non-voter} x API {Store.Query, Store.Request with a read-only statement} x freshness {0, 500ms, 1h} x freshness_strict {off, on}, under each node condition {healthy; non-voter cut off longer than the small bound; follower and non-voter restarted and caught up; follower and non-voter holding a received but unapplied command, last applied promptly; the same with the last applied command held back longer than the small bound; leader isolated inside its lease; the same after the lease ran out; healed}. Every answer is compared with the documented table evaluated on the node's own raft state and timestamps read before and after the read. Job W (c16_wiring_test.go): on a follower and a non-voter in contact / cut off longer than the small bound, and on the leader, every combination of FSM update time {now-1s, now-2h} x appended-at time {never, now-1.1s, now-3s, now-5h, now-90min} x FSM index {5,7,9} x received-command index {5,7,9} x freshness x strict is stored into the node's real fields and the real Store.isStaleRead is compared with the reference rule of part (a). thorough: the same with the other voter leading, jobs A and B twice. evaluations = reads judged + grid points; distinct = (condition, role, level, API, freshness, strict, documented answer and reason, answer)")
 	r.Assume("interleavings inside hashicorp/raft are uncontrolled; conditions are reached by deterministic set-up (partition, then poll the node's own last-contact age; commit index held back through rqlite's AppendEntries receive hook) and every expectation is computed from the node's state read immediately before and after the read; a read whose bracket allows both answers is repeated")
 	r.Assume("all raft timeouts are 5 s (kit default): an isolated leader keeps believing for 5 s, followers do not start elections during a condition; the non-voter never stands for election")
+	r.Note("observed while building this part (not a C16 violation): NodeTransport's received-command index is stored from every AppendEntries request before raft validates it, so a late request of a deposed leader's term sets it back below the node's applied index; IsStaleRead treats 'applied index ahead' as not behind, so no read is affected.")
 	r.Note("live part: requests are sent to the Store of each node directly (no HTTP layer, no forwarding: a refusal with ErrNotLeader is the documented answer that the HTTP layer turns into a redirect/forward).")
 
 	type job struct {
 		name   string
 		rotate bool
 	}
-	jobs := []job{{"A", false}, {"B", false}}
+	jobs := []job{{"A", false}, {"B", false}, {"W", false}}
 	if r.Thorough() {
-		jobs = []job{{"A", false}, {"B", false}, {"A-rotated", true}, {"B-rotated", true}, {"A-2", false}, {"B-2", false}, {"A-rotated-2", true}, {"B-rotated-2", true}}
+		jobs = []job{{"A", false}, {"B", false}, {"W", false}, {"A-rotated", true}, {"B-rotated", true}, {"W-rotated", true}, {"A-2", false}, {"B-2", false}, {"A-rotated-2", true}, {"B-rotated-2", true}}
 	}
 	var filter *c16lCase
 	if rp := kit.Replay(); rp != nil {
 		filter = &c16lCase{}
-		if err := json.Unmarshal(rp, filter); err != nil || filter.Condition == "" {
+		if err := json.Unmarshal(rp, filter); err != nil || filter.Job == "" {
 			t.Fatalf("harness: bad replay: %v", err)
 		}
 		jobs = nil
 		for i := 0; i < 3; i++ {
 			jobs = append(jobs, job{filter.Job, strings.Contains(filter.Job, "rotated")})
+		}
+		if filter.Job[0] == 'W' {
+			filter = nil // the wiring grid is cheap: the whole job is repeated
 		}
 	}
 	var wg sync.WaitGroup
